@@ -359,6 +359,36 @@ def run(rep, tier):
         ok = bool(bf) and bool(regs) and bool(metas) and bool(oks) and f.must_pass(oks, targets) and not any(f.reachable_from([t]) & set(targets) for t in errs)
         rep.ob("R02.6", "backfill-before-registration|%s" % fam, ok,
                "registration (%d family pushes, %d metadata inserts) must lie on the Ok edge of backfill only" % (len(regs), len(metas)), f.file + ":%d" % f.line)
+    # ------------------------------------------------------------------ R02.9 settings and registries that the indexes depend on
+    rep.rule("R02.9", "what an index was built with follows the collection: set_tokenizer reaches the loaded BM25 indexes (the open callback runs after "
+             "load_indexes); a writer of the collection metadata outside the checkpoint does not publish an index whose objects were not persisted", floor=2)
+    st = prog.fn(anda.COLL + "::set_tokenizer")
+    rep.saw(st, len(st.events))
+    fam_field = [k for k, v in fams.items() if v.endswith("BM25")]
+    touches = any(fam_field and fam_field[0] in anda.recv_fields(st, e) for e in st.calls()) or any(
+        isinstance(el, dict) and el.get("n") in fam_field for b in st.live_blocks() for stt in st.stmts(b) if stt[0] == "A"
+        for pl in ([stt[2].get("p")] if stt[2].get("k") == "ref" else []) if pl for el in (pl.get("p") or []))
+    pushes_down = any(re.search(r"index::bm25::BM25::set_tokenizer$|bm25::BM25Index::<T>::set_tokenizer$", e.name or "")
+                      for g_ in [st] + list(prog.closures_of(st)) for e in g_.calls())
+    # (the setters of the wrapper and of the index are small new functions: once inlined, what is left is a mutable walk over the family)
+    mut_walk = any(re.search(r"IterMut<|iter_mut$|&'a mut alloc::vec::Vec", e.name or "") for e in st.calls())
+    rep.ob("R02.9", "tokenizer-reaches-loaded-indexes|set_tokenizer", touches and (pushes_down or mut_walk),
+           "Collection::set_tokenizer only assigns the collection's field; the BM25 indexes load_indexes built before the open callback keep the default tokenizer: "
+           "after a clean close and reopen with set_tokenizer(jieba) a document whose text Collection::tokenize says contains the term is not returned by the term "
+           "query (updates and removes after a reopen re-tokenize with the wrong tokenizer too)", st.file + ":%d" % st.line)
+    um = prog.fn(anda.COLL + "::store_metadata_unclaimed")
+    rep.saw(um, len(um.events))
+    si = {f_.id for f_ in prog.fns.values() if f_.path == anda.COLL + "::store_indexes"}
+    wr_meta = [e for e in um.calls_named(r"^anda_db::storage::Storage::(put|put_bytes)$")]
+    flushed_first = bool(wr_meta) and any(set(prog.callee_nodes(e)) & si and all(um.dominates(e.block, w.block) for w in wr_meta) for e in um.calls())
+    # or: the registry it writes is not the live one (it is derived from the last persisted index set)
+    live_registry = any(e.name.endswith("Collection::metadata") for e in um.calls())
+    rep.ob("R02.9", "unclaimed-metadata-names-only-persisted-indexes|store_metadata_unclaimed", flushed_first or not live_registry,
+           "store_metadata_unclaimed (save_extension, remove_extension, cleanup_removed_index) PUTs the live metadata registry without the `indexes before metadata` "
+           "order of flush_inner: an index created in this handle whose postings exist only in memory becomes durably registered - after a crash it bootstraps "
+           "empty, create_*_index_nx swallows AlreadyExists and the repair scan only covers ids above the checkpoint, so `score == 7` answers [] for documents 1-3 for good",
+           (wr_meta[0].where() if wr_meta else um.file))
+
     return rep.finish(EXPLAIN)
 
 
